@@ -439,6 +439,151 @@ fn end_to_end(out: &mut Out) {
     }
 }
 
+// ------------------------------------------------------------------ the canister's adaptor
+// The rules above are evaluated "at that height" over the chain the canister hands to the
+// validator (stable header store + unstable chain + announced headers). This part explores
+// tree states with announced headers and compares that view with the reference chain.
+
+pub struct StoreView;
+
+#[derive(Default)]
+pub struct NoMon;
+
+impl crate::chain::Oracle for StoreView {
+    type Mon = NoMon;
+    fn prop(&self) -> &'static str {
+        "C11"
+    }
+    fn on_state(&self, w: &mut crate::world::World, _m: &mut NoMon, _hist: &[crate::chain::Ev], out: &mut Out) {
+        use crate::refmodel::H32;
+        let tree: Vec<H32> = w.tree_hashes();
+        let sh = w.stable_height();
+        let dump = crate::props::c20::dump_unstable().ok();
+        let retained: std::collections::HashSet<H32> = dump.map(|d| d.hdr_by_hash.keys().copied().collect()).unwrap_or_default();
+        // candidate parents: every tree block, every retained announced header
+        let mut parents: Vec<(H32, Vec<Header>, bool)> = vec![]; // (hash, chain genesis..=parent as headers, is announced)
+        let hdr_of = |w: &crate::world::World, h: &H32| -> Header { w.blocks.get(h).unwrap().header };
+        for t in &tree {
+            if !w.refm.has(t) {
+                continue;
+            }
+            let chain: Vec<Header> = w.refm.chain_to(t).iter().map(|h| hdr_of(w, h)).collect();
+            parents.push((*t, chain, false));
+        }
+        for a in w.announced.clone() {
+            if !retained.contains(&a.hash) {
+                continue;
+            }
+            // walk back through announced headers to a tree block
+            let mut path = vec![a.header];
+            let mut cur = a.prev;
+            let mut ok = false;
+            for _ in 0..16 {
+                if tree.contains(&cur) {
+                    ok = true;
+                    break;
+                }
+                match w.announced.iter().find(|x| x.hash == cur && retained.contains(&x.hash)) {
+                    Some(p) => {
+                        path.push(p.header);
+                        cur = p.prev;
+                    }
+                    None => break,
+                }
+            }
+            if !ok || !w.refm.has(&cur) {
+                continue; // header of a discarded fork: the validator has no view for it
+            }
+            let mut chain: Vec<Header> = w.refm.chain_to(&cur).iter().map(|h| hdr_of(w, h)).collect();
+            path.reverse();
+            chain.extend(path);
+            parents.push((a.hash, chain, true));
+        }
+        for (ph, chain, announced) in parents {
+            let parent = *chain.last().unwrap();
+            // any header extending the parent
+            let cand = Header {
+                version: Version::from_consensus(0x2000_0000),
+                prev_blockhash: parent.block_hash(),
+                merkle_root: TxMerkleNode::from_byte_array([0x42; 32]),
+                time: parent.time + 600,
+                bits: parent.bits,
+                nonce: 12345,
+            };
+            for with_next in [true, false] {
+                if announced && !with_next {
+                    continue;
+                }
+                out.transitions += 1;
+                let r = crate::util::guarded(|| ic_btc_canister::verif_hooks::header_store_view(&cand, with_next));
+                let ctx = json!({"parent": crate::util::short(&ph), "parent_is_announced_header": announced, "with_next_block_headers": with_next,
+                                 "stable_height": sh, "expected_height": chain.len() - 1});
+                match r {
+                    Err(p) => out.violation("store-view-trap", None, json!({"panic": p, "ctx": ctx})),
+                    Ok(Err(e)) => out.violation("store-view-refused", None, json!({"error": e, "ctx": ctx})),
+                    Ok(Ok((height, by_height, found_by_hash, initial))) => {
+                        let want_h = chain.len() as u32 - 1;
+                        let mut bad = vec![];
+                        if height != want_h {
+                            bad.push(format!("height() = {} but the parent is at height {}", height, want_h));
+                        }
+                        for (i, h) in chain.iter().enumerate() {
+                            if by_height.get(i).cloned().flatten() != Some(*h) {
+                                bad.push(format!("get_with_height({}) is not the chain's header", i));
+                                break;
+                            }
+                        }
+                        if by_height.get(chain.len()).cloned().flatten().is_some() && height == want_h {
+                            bad.push("a header is served above the tip".to_string());
+                        }
+                        if !found_by_hash {
+                            bad.push("a header served by height is not found by its hash".to_string());
+                        }
+                        if initial != chain[0].block_hash() {
+                            bad.push("initial hash is not the genesis hash".to_string());
+                        }
+                        if !bad.is_empty() {
+                            out.violation("store-view", None, json!({"problems": bad, "ctx": ctx}));
+                        } else {
+                            out.count("store_views_checked");
+                            if announced {
+                                out.count("store_views_on_announced_headers");
+                            }
+                            if sh > 0 {
+                                out.count("store_views_spanning_stable_and_unstable");
+                            }
+                        }
+                    }
+                }
+            }
+        }
+        out.distinct.insert(crate::world::full_fingerprint() as u64);
+    }
+}
+
+fn store_adaptor(rep: &mut Report, quick: bool) {
+    use crate::chain::{Alphabet, ChainModel};
+    use crate::engine::{explore, Limits};
+    use crate::world::WorldCfg;
+    let parts: Vec<(u32, usize, Vec<u8>, usize)> = if quick {
+        vec![(1, 3, vec![1, 2, 3], 2), (2, 4, vec![2], 1)]
+    } else {
+        vec![(1, 4, vec![1, 2, 3], 2), (2, 5, vec![1, 3], 2), (3, 5, vec![2, 4], 1)]
+    };
+    for (theta, n, lens, mh) in parts {
+        let mut alpha = Alphabet::tree(n, &[1]);
+        alpha.hdr_lens = lens.clone();
+        alpha.max_hdr_events = mh;
+        let m = ChainModel { cfg: WorldCfg::regtest(theta), alpha, oracle: StoreView };
+        let e = explore(&m, &Limits::new(2, if quick { 50 } else { 3000 }));
+        rep.absorb(
+            &format!("STORE-VIEW theta={} n={} announced chains {:?} x{}", theta, n, lens, mh),
+            e,
+            json!({"threshold": theta, "max_blocks": n, "announced_chain_lengths": lens, "max_header_events": mh}),
+        );
+    }
+}
+
 pub fn run(tier: &str) -> i32 {
     let mut rep = Report::new("C11", tier, "exploration");
     let quick = tier == "quick";
@@ -460,9 +605,10 @@ pub fn run(tier: &str) -> i32 {
     out.samples.push(json!({"family": "tail", "net": "regtest", "candidate_height": 4033, "tail_pattern": 7, "gap": 1199,
         "expected": "walk back over 3 limit-bits headers"}));
     rep.out.merge(out);
+    store_adaptor(&mut rep, quick);
     rep.evaluations = rep.out.states;
     let _ = factory::REGTEST_BITS;
-    rep.rule = "network in {mainnet, testnet4, regtest} x candidate position (h mod 2016 in {0,1,2,2015}) in periods 1 and 2 x {limit, real}^4 bits of the last four headers x gap to parent in {0,1,600,1199,1200,1201,7200} ; retarget boundary x 13 period timespans (negative, 0, around T/4, T, 4T) x first-bits variants (BIP94) x last-bits variants; walk-backs to a period boundary and to genesis; timestamp rule x chain lengths 1..14 x 6 timestamp patterns x 8 candidate times; regtest end-to-end (mined / unmined, known / unknown parent, 5 declared targets, 6 times, 6 chain lengths); distinct = distinct required targets".into();
+    rep.rule = "network in {mainnet, testnet4, regtest} x candidate position (h mod 2016 in {0,1,2,2015}) in periods 1 and 2 x {limit, real}^4 bits of the last four headers x gap to parent in {0,1,600,1199,1200,1201,7200} ; retarget boundary x 13 period timespans (negative, 0, around T/4, T, 4T) x first-bits variants (BIP94) x last-bits variants; walk-backs to a period boundary and to genesis; timestamp rule x chain lengths 1..14 x 6 timestamp patterns x 8 candidate times; regtest end-to-end (mined / unmined, known / unknown parent, 5 declared targets, 6 times, 6 chain lengths); and, for the height the rules are evaluated at: in every state of TREE histories with announced-header chains, for every possible parent (tree block or retained announced header) the chain view handed to the validator (height, header at every height across stable store / unstable chain / announced headers, lookup by hash, initial hash) against the reference chain; distinct = distinct required targets / states".into();
     rep.bounds = json!({"tier": tier});
     rep.assume("the accept side of the composed predicate on mainnet/testnet needs real proof of work and is not reached; it shares the composition code with regtest and its network-specific parts are compared through the rule wrappers");
     rep.assume("reference: an independent re-implementation of Core's GetNextWorkRequired / CalculateNextWorkRequired (BIP94 base on testnet4) and median-time-past, with its own compact-target arithmetic on big integers");
@@ -476,5 +622,7 @@ pub fn run(tier: &str) -> i32 {
     rep.floor("timestamp_checks_with_fewer_than_11_ancestors", 100);
     rep.floor("headers_accepted", 5);
     rep.floor("headers_rejected", 100);
+    rep.floor("store_views_on_announced_headers", 100);
+    rep.floor("store_views_spanning_stable_and_unstable", 100);
     rep.finish()
 }
